@@ -554,6 +554,17 @@ func runJobs(l *Loaded, fn *ssa.Function, g *JobGroup, argLists [][]int64, tier 
 	if g.Workers > 0 {
 		workersPer = g.Workers
 	}
+	// deepening groups (inductive lemmas, white-box harnesses) may not eat the time of the groups that decide
+	// the property through its public interface: they get a share of the check's time, the rest is reported
+	// as not covered
+	var groupDeadline time.Time
+	if g.Lemma || g.OptionalUnsupported != "" || g.OptionalLoad != "" {
+		share := 3 * time.Minute
+		if tier == "thorough" {
+			share = 60 * time.Minute
+		}
+		groupDeadline = time.Now().Add(share)
+	}
 	results := make([]jobResult, len(argLists))
 	sem := make(chan struct{}, par)
 	var wg sync.WaitGroup
@@ -591,6 +602,9 @@ func runJobs(l *Loaded, fn *ssa.Function, g *JobGroup, argLists [][]int64, tier 
 			dl := time.Now().Add(jobLimit)
 			if !checkDeadline.IsZero() && checkDeadline.Before(dl) {
 				dl = checkDeadline
+			}
+			if !groupDeadline.IsZero() && groupDeadline.Before(dl) {
+				dl = groupDeadline
 			}
 			maxFail := g.MaxFailures
 			if maxFail == 0 {
